@@ -105,7 +105,20 @@ impl<L: Language> Pattern<L> {
 impl<L: Language> RecExpr<L> {
     pub fn parse(s: &str) -> Result<Self, ParseError> {
         let pat = Pattern::parse(s)?;
+        if !pat.is_plain_term() {
+            // pattern variables and substitutions are no terms.
+            return Err(ParseError::ParseState(tokenize(s)?));
+        }
         Ok(pattern_to_re(&pat))
+    }
+}
+
+impl<L: Language> Pattern<L> {
+    fn is_plain_term(&self) -> bool {
+        match self {
+            Pattern::ENode(_, children) => children.iter().all(|x| x.is_plain_term()),
+            Pattern::PVar(_) | Pattern::Subst(..) => false,
+        }
     }
 }
 
